@@ -87,6 +87,11 @@ impl Default for Stack {
 }
 
 impl Stack {
+    #[cfg(feature = "verif_hooks")]
+    pub fn verif_len(&self) -> usize {
+        self.values.len()
+    }
+
     pub fn push(&mut self, arg: Value) {
         self.values.push(arg);
     }
@@ -355,6 +360,12 @@ impl<'env> Context<'env> {
             seen.extend(self.env.globals().map(|x| Cow::Borrowed(x.0)));
         }
         seen
+    }
+
+    /// The number of frames on this context.
+    #[cfg(feature = "verif_hooks")]
+    pub fn verif_frame_count(&self) -> usize {
+        self.stack.len()
     }
 
     /// Pushes a new layer.
